@@ -226,12 +226,15 @@ pub fn minimise(prog: &Program, mon: &MonSet, v: &Violation, budget: usize) -> (
     // minimisation is a convenience: bounded by candidate runs and by wall-clock time
     let t0 = std::time::Instant::now();
     let budget = if std::env::var("YMON_NO_MIN").is_ok() { 0 } else { budget };
-    while best.steps.len() >= 2 && runs < budget && t0.elapsed().as_secs() < 20 {
+    // (a manual `replay --deep-min <secs>` lifts both bounds)
+    let extra: u64 = std::env::var("YMON_MIN_SECS").ok().and_then(|s| s.parse().ok()).unwrap_or(0);
+    let budget = if extra > 0 { usize::MAX } else { budget };
+    while best.steps.len() >= 2 && runs < budget && t0.elapsed().as_secs() < 20 + extra {
         let len = best.steps.len();
         let chunk = (len + n - 1) / n;
         let mut reduced = false;
         let mut i = 0;
-        while i < len && runs < budget && t0.elapsed().as_secs() < 20 {
+        while i < len && runs < budget && t0.elapsed().as_secs() < 20 + extra {
             let mut cand = best.clone();
             let end = (i + chunk).min(len);
             cand.steps.drain(i..end);
@@ -253,7 +256,7 @@ pub fn minimise(prog: &Program, mon: &MonSet, v: &Violation, budget: usize) -> (
     }
     // single calls inside transactions
     let mut si = 0;
-    while si < best.steps.len() && runs < budget && t0.elapsed().as_secs() < 30 {
+    while si < best.steps.len() && runs < budget && t0.elapsed().as_secs() < 30 + extra {
         if let Step::Txn { calls, .. } = &best.steps[si] {
             let mut ci = 0;
             let mut ncalls = calls.len();
@@ -405,6 +408,19 @@ pub fn cmd_replay(args: &Args) -> i32 {
     let which = if args.has("full") { &doc["program"] } else { &doc["minimised"]["program"] };
     let program: Program = serde_json::from_value(which.clone()).unwrap();
     let st = setup(&prop, &tier, idx);
+    if args.has("deep-min") {
+        // manual aid: minimise the recorded history again with a larger budget and store it next to the file
+        std::env::set_var("YMON_MIN_SECS", args.str("deep-min", "600"));
+        let v = Violation { prop: Box::leak(prop.clone().into_boxed_str()), kind: doc["violation"]["kind"].as_str().unwrap_or("").to_string(), detail: String::new() };
+        let (min, runs) = minimise(&program, &st.mon, &v, usize::MAX);
+        let minres = run_program(&min, &st.mon);
+        let out = json!({"workload": "sim", "prop": prop, "tier": tier, "seed": doc["seed"], "idx": idx, "violation": doc["violation"], "program": min,
+            "minimised": {"program": min, "ddmin_runs": runs, "log": minres.log}});
+        let path = format!("{}.min.json", file);
+        let _ = std::fs::write(&path, serde_json::to_string_pretty(&out).unwrap());
+        println!("minimised to {} steps in {} runs -> {}", min.steps.len(), runs, path);
+        return 0;
+    }
     let res = run_program(&program, &st.mon);
     for l in &res.log {
         println!("  {}", l);
